@@ -130,7 +130,12 @@ def render_pf(frec):
     """Parameter formula of a space: lambda params: None | {'refs': {...}}."""
     ps = frec["ps"]
     extra = frec.get("refs")
+    parts = []
+    if frec.get("base"):
+        parts.append("'base': _model.%s" % ".".join(frec["base"]))
     if extra:
         items = ", ".join("'%s': %s" % (k, v) for k, v in sorted(extra.items()))
-        return "lambda %s: {'refs': {%s}}" % (params_src(ps), items)
+        parts.append("'refs': {%s}" % items)
+    if parts:
+        return "lambda %s: {%s}" % (params_src(ps), ", ".join(parts))
     return "lambda %s: None" % params_src(ps)
